@@ -1,5 +1,7 @@
 import Model.QuantBins
 import Proofs.Quant
+import Proofs.SearchSim
+import Proofs.ProbingRefines
 import Properties.C01
 import Properties.C02
 /-! C03 — All model data structures are observationally equivalent.
@@ -32,6 +34,44 @@ theorem trie_mark_loss_harmless (a : Arpa) (wf : WellFormed a) (unmarked : List 
       (scoreSeq (tableSearch (build a)) nullContextState ws).1 := by
   rw [(KV.C01.scoreSeq_spec a wf unmarked ws [] _ (KV.C01.stateFor_null a) hv).1,
       (KV.C01.scoreSeq_spec a wf (fun _ => false) ws [] _ (KV.C01.stateFor_null a) hv).1]
+
+/-- **Refinement interface**: any two searches related by a depth-indexed node relation under which every lookup of
+the generic algorithm returns the same result give the same `FullScore` results (probability, rest, matched length,
+left-independence flag, out-state) for every in-state and word.  The concrete structures plug in here. -/
+theorem search_refinement {ν₁ ν₂ : Type} (S₁ : Search ν₁) (S₂ : Search ν₂) (R : Nat → ν₁ → ν₂ → Prop) (sim : Sim S₁ S₂ R)
+    (hN : 2 ≤ S₁.order) (s : State) (w : Word) :
+    (fullScore S₁ s w).1.prob = (fullScore S₂ s w).1.prob ∧
+    (fullScore S₁ s w).1.ngramLength = (fullScore S₂ s w).1.ngramLength ∧
+    (fullScore S₁ s w).1.independentLeft = (fullScore S₂ s w).1.independentLeft ∧
+    (fullScore S₁ s w).1.rest = (fullScore S₂ s w).1.rest ∧
+    (fullScore S₁ s w).2 = (fullScore S₂ s w).2 := fullScore_sim S₁ S₂ R sim hN s w
+
+/-- **probing_refines**: the probing search (`HashedSearch`: per-order probing tables keyed by the chained word hash,
+node = hash so far) gives exactly the results of the abstract table it represents — for *every* state and word,
+any bucket counts / probing multiplier (they only enter through the C20 invariant `Inv`/`Abs` of each table, which
+`run_refines_map` establishes for any insertion sequence below capacity), any combining function, provided the
+chained hash is injective on the table's n-grams (explicit hypothesis; checked per generated model). -/
+theorem probing_refines (combine : Nat → Word → Nat) (P : KV.ProbingLM.PLM) (T : Table)
+    (Mmid : Nat → Nat → Option Nat) (Mlong : Nat → Option Nat)
+    (rep : KV.ProbingLM.Represents combine P T Mmid Mlong) (inj : KV.ProbingLM.HashInjective combine T)
+    (hN : 2 ≤ T.order) (s : State) (w : Word) :
+    (fullScore (KV.ProbingLM.search combine P) s w).1.prob = (fullScore (tableSearch T) s w).1.prob ∧
+    (fullScore (KV.ProbingLM.search combine P) s w).1.ngramLength = (fullScore (tableSearch T) s w).1.ngramLength ∧
+    (fullScore (KV.ProbingLM.search combine P) s w).1.independentLeft = (fullScore (tableSearch T) s w).1.independentLeft ∧
+    (fullScore (KV.ProbingLM.search combine P) s w).1.rest = (fullScore (tableSearch T) s w).1.rest ∧
+    (fullScore (KV.ProbingLM.search combine P) s w).2 = (fullScore (tableSearch T) s w).2 :=
+  fullScore_sim _ _ _ (KV.ProbingLM.probing_sim combine P T Mmid Mlong rep inj hN)
+    (by show 2 ≤ P.order; rw [rep.order]; exact hN) s w
+
+/-- hence: a probing model that represents `build a unmarked` returns the ARPA recursion -/
+theorem probing_prob (a : Arpa) (wf : WellFormed a) (unmarked : List Word → Bool) (combine : Nat → Word → Nat)
+    (P : KV.ProbingLM.PLM) (Mmid : Nat → Nat → Option Nat) (Mlong : Nat → Option Nat)
+    (rep : KV.ProbingLM.Represents combine P (build a unmarked) Mmid Mlong)
+    (inj : KV.ProbingLM.HashInjective combine (build a unmarked))
+    (h : List Word) (s : State) (sf : StateFor a h s) (w : Word) (hw : a.gram [w] ≠ none) :
+    (fullScore (KV.ProbingLM.search combine P) s w).1.prob = score a h w := by
+  rw [(probing_refines combine P _ Mmid Mlong rep inj wf.order_ge s w).1]
+  exact KV.C01.fullScore_prob a wf unmarked h s sf w hw
 
 /-! ### quantisation (pre-observation D) -/
 
